@@ -232,6 +232,28 @@ func collideProgram(r *rand.Rand) map[string]string {
 	return files
 }
 
+// chainProgram: service inheritance chains that cross three and four files,
+// where the file of a descendant does not include the file of a remote
+// ancestor itself but a sibling include does (the generator must know every
+// module an ancestor lives in, whichever file it happens to visit first).
+func chainProgram(variant int) map[string]string {
+	files := map[string]string{}
+	files["/v/c.thrift"] = "struct CItem { 1: optional i32 v }\nservice SC { CItem base(1: CItem i) }\n"
+	files["/v/m.thrift"] = "include \"./c.thrift\"\nservice SM extends c.SC { void mid() }\n"
+	files["/v/a.thrift"] = "include \"./m.thrift\"\nservice SA extends m.SM { void leaf() }\nservice SA2 extends SA { void leaf2() }\n"
+	files["/v/b.thrift"] = "include \"./c.thrift\"\nstruct BItem { 1: optional c.CItem c }\nservice SB extends c.SC { void other() }\n"
+	switch variant % 3 {
+	case 0:
+		files["/v/root.thrift"] = "include \"./a.thrift\"\ninclude \"./b.thrift\"\nstruct Use { 1: optional b.BItem i }\n"
+	case 1:
+		files["/v/root.thrift"] = "include \"./b.thrift\"\ninclude \"./a.thrift\"\nstruct Use { 1: optional b.BItem i }\nservice Root { void r() }\n"
+	default:
+		files["/v/d.thrift"] = "include \"./a.thrift\"\nservice SD extends a.SA2 { void d() }\n"
+		files["/v/root.thrift"] = "include \"./d.thrift\"\ninclude \"./b.thrift\"\ninclude \"./m.thrift\"\nservice Root extends b.SB { b.BItem get() }\n"
+	}
+	return files
+}
+
 func cmdC10(args []string) error {
 	c := newCommon("c10")
 	infPath := c.fs.String("inflight", "", "file receiving the case in flight")
@@ -315,6 +337,19 @@ func cmdC10(args []string) error {
 			for _, o := range optSets {
 				for i := 0; i < *runs; i++ {
 					if err := emit("corpus:"+filepath.Base(p), files, "/v/"+filepath.Base(p), []step{}, true, o, i); err != nil {
+						return err
+					}
+				}
+			}
+		}
+	}
+	// inheritance chains across files
+	if *big > 0 {
+		for v := 0; v < 3; v++ {
+			files := chainProgram(v)
+			for _, o := range optSets[:2] {
+				for i := 0; i < 3**runs; i++ {
+					if err := emit(fmt.Sprintf("chain:%d", v), files, "/v/root.thrift", []step{}, true, o, i); err != nil {
 						return err
 					}
 				}
